@@ -116,8 +116,8 @@ impl CEdit {
         let c = u64::from(ctx.trace_context.span_id);
         match self {
             CEdit::Keep => {}
-            CEdit::Add(k) => ctx.trace_context.span_id = SpanId::from(c + k),
-            CEdit::Set(v) => ctx.trace_context.span_id = SpanId::from(*v),
+            CEdit::Add(k) => set_ctx(ctx, c + k),
+            CEdit::Set(v) => set_ctx(ctx, *v),
         }
     }
 }
@@ -270,8 +270,30 @@ fn show_resp(r: &Resp) -> String {
     }
 }
 
+thread_local! {
+    static BASE: std::time::Instant = std::time::Instant::now();
+}
+
+/// The context value `v` is written into every field a hook may change — the span id, the trace id and the
+/// deadline (`BASE + 1 h + v s`, so that edits move it both earlier and later).
+fn set_ctx(ctx: &mut Context, v: u64) {
+    ctx.trace_context.span_id = SpanId::from(v);
+    ctx.trace_context.trace_id = tarpc::trace::TraceId::from(v as u128 + 1);
+    ctx.deadline = BASE.with(|b| *b) + std::time::Duration::from_secs(3600 + v);
+}
+
+/// … and read back from all of them: a field that does not carry the value shows up as a different number.
 fn ctx_val(ctx: &Context) -> u64 {
-    u64::from(ctx.trace_context.span_id)
+    let v = u64::from(ctx.trace_context.span_id);
+    let d = ctx.deadline.duration_since(BASE.with(|b| *b)).as_secs();
+    let t = u128::from(ctx.trace_context.trace_id);
+    if d != 3600 + v {
+        return 1_000_000_000 + d;
+    }
+    if t != v as u128 + 1 {
+        return 2_000_000_000 + t as u64;
+    }
+    v
 }
 
 #[derive(Clone)]
@@ -415,7 +437,7 @@ fn run_op(out: &mut Out, op: &Op) {
     let log: Log = Rc::new(RefCell::new(Vec::new()));
     let serve = build(&op.tree, &log);
     let mut ctx = tarpc::context::current();
-    ctx.trace_context.span_id = SpanId::from(op.ctx);
+    set_ctx(&mut ctx, op.ctx);
     // Exercise `Clone` of the combinators as the server does (one clone per request).
     let resp = futures::executor::block_on(serve.clone().serve(ctx, Req(op.req)));
     for l in log.borrow().iter() {
